@@ -293,6 +293,30 @@ func c07Recovery(c *core.Ctx, idx int) {
 // them). Every well-formed statement of the clean parse must still be in the recovered list, in order and
 // with the same structure ("parsing continues after it", however many errors came before), and the tree
 // must print as a sub-sequence of the source.
+type c07Wrapper struct {
+	name, pre, post string
+	php7, noHeredoc bool
+}
+
+var c07Wrappers = []c07Wrapper{
+	{"function-body", "<?php\nfunction f() {\n", "\n}\n", false, false},
+	{"function-body", "<?php\nfunction f() {\n", "\n}\n", false, false},
+	{"method-body", "<?php\nclass K {\npublic function m() {\n", "\n}\n}\n", false, false},
+	{"closure-in-call", "<?php\n$s = $f(function() {\n", "\n});\nlast();\n", false, false},
+	{"closure-in-double-quotes", "<?php\n$s = \"x {$f(function() {\n", "\n})} y\";\nlast();\n", false, true},
+	{"closure-in-heredoc", "<?php\n$s = <<<ZZEOT\nx {$f(function() {\n", "\n})} y\nZZEOT;\nlast();\n", false, true},
+	{"closure-in-backticks", "<?php\n$s = `x {$f(function() {\n", "\n})} y`;\nlast();\n", false, true},
+	{"closure-in-dollar-brace", "<?php\n$s = \"x ${f(function() {\n", "\n})} y\";\nlast();\n", false, true},
+	{"closure-in-interpolated-dim", "<?php\n$s = \"x {$a[f(function() {\n", "\n})]} y\";\nlast();\n", false, true},
+	{"closure-in-nested-interpolation", "<?php\n$s = \"a {$b[\"c {$f(function() {\n", "\n})} d\"]} e\";\nlast();\n", false, true},
+	{"braced-block-in-if", "<?php\nif ($c) {\n", "\n} else { other(); }\n", false, false},
+	{"alt-while-body", "<?php\nwhile ($c):\n", "\nendwhile;\nlast();\n", false, false},
+	{"try-body", "<?php\ntry {\n", "\n} catch (E $e) { other(); }\n", false, false},
+	{"finally-body", "<?php\ntry { other(); } finally {\n", "\n}\n", false, false},
+	{"anonymous-class-method", "<?php\n$o = new class { function m() {\n", "\n} };\n", true, false},
+	{"static-closure-in-array-in-string", "<?php\n$s = \"x {$t['k'](static function() {\n", "\n})} y\";\n", false, true},
+}
+
 func c07Burst(c *core.Ctx, idx int) {
 	r := core.NewRand(c.P.Seed, "C07burst", idx)
 	nested := r.Chance(1, 3)
@@ -323,10 +347,18 @@ func c07Burst(c *core.Ctx, idx int) {
 		parts = append(parts, strings.TrimSpace(b))
 	}
 	ver := pickVersion(r)
-	pre, post := "<?php\n", "\n"
+	// the context of the list: top level, or a statement list nested in a wrapper — also wrappers that put the
+	// list inside an interpolation, where the scanner is several states deep when the error is met
+	pre, post, wrapper := "<?php\n", "\n", "top-level"
 	if nested {
-		pre, post = "<?php\nfunction f() {\n", "\n}\n"
+		ws := c07Wrappers
+		wr := ws[r.Intn(len(ws))]
+		for (wr.php7 && obs.Fam(ver) != 7) || (wr.noHeredoc && strings.Contains(strings.Join(parts, "\n"), "<<<")) {
+			wr = ws[r.Intn(len(ws))]
+		}
+		pre, post, wrapper = wr.pre, wr.post, wr.name
 	}
+	pre += "zzfirst();\n"
 	every := r.Chance(1, 2)
 	var clean, broken strings.Builder
 	clean.WriteString(pre)
@@ -352,7 +384,7 @@ func c07Burst(c *core.Ctx, idx int) {
 		return
 	}
 	src := []byte(broken.String())
-	w := core.W(src, ver).With("malformed_statements_inserted", fmt.Sprint(inserted)).With("well_formed_texts", fmt.Sprint(k)).With("nested", fmt.Sprint(nested))
+	w := core.W(src, ver).With("malformed_statements_inserted", fmt.Sprint(inserted)).With("well_formed_texts", fmt.Sprint(k)).With("wrapper", wrapper)
 	c.Inflight(src, "C07 burst "+ver)
 	bp := obs.Parse(src, ver, true)
 	c.Add("burst_cases", 1)
@@ -370,28 +402,37 @@ func c07Burst(c *core.Ctx, idx int) {
 		c.Violation(sig+"no-tree", fmt.Sprintf("no tree is returned for a file with %d benign malformed statements between well-formed ones", inserted), w)
 		return
 	}
+	// the list under comparison is the one that begins with the marker statement zzfirst();
 	list := func(root ast.Vertex) []ast.Vertex {
-		var top []ast.Vertex
-		for _, f := range obs.Fields(root) {
-			if f.Name == "Stmts" {
-				top = f.Nodes
-			}
-		}
-		if !nested {
-			return top
-		}
-		for _, st := range top {
-			if obs.Kind(st) == "StmtFunction" {
-				for _, f := range obs.Fields(st) {
-					if f.Name == "Stmts" {
-						return f.Nodes
+		var found []ast.Vertex
+		obs.Walk(root, func(n, _ ast.Vertex, _ string, _ int) bool {
+			for _, f := range obs.Fields(n) {
+				if f.Name != "Stmts" || f.Kind != obs.FNodes || len(f.Nodes) == 0 {
+					continue
+				}
+				if st, ok := f.Nodes[0].(*ast.StmtExpression); ok {
+					if call, ok := st.Expr.(*ast.ExprFunctionCall); ok {
+						if nm, ok := call.Function.(*ast.Name); ok && len(nm.Parts) == 1 {
+							if np, ok := nm.Parts[0].(*ast.NamePart); ok && string(np.Value) == "zzfirst" {
+								found = f.Nodes
+							}
+						}
 					}
 				}
 			}
-		}
-		return nil
+			return true
+		})
+		return found
 	}
 	cl, bl := list(cp.Root), list(bp.Root)
+	c.Cover("burst-wrappers", wrapper)
+	if cl == nil {
+		core.Fail("C07 burst: marker statement not found in the clean tree (wrapper %s)", wrapper)
+	}
+	if bl == nil {
+		c.Violation(sig+"list-lost|"+wrapper, fmt.Sprintf("the statement list (wrapper %s) that begins with the well-formed marker statement is not in the tree recovered from a file with %d malformed statements", wrapper, inserted), w)
+		return
+	}
 	j := 0
 	for i, st := range cl {
 		want := obs.StructureCanon(st)
